@@ -606,4 +606,73 @@ theorem gen_idbyte_ranges (id l : Int) (h3 : 3 ≤ id) (h127 : id ≤ 127) :
     (id ≤ 31 → InI32 l → l ≤ 2147483585 → InI32 (2 * id + l)) := by
   unfold InI32; omega
 
+/-! ### `opus_extension_iterator_find` -/
+
+theorem find_eq (it : Iter) (id : Int) : find it id =
+    match next it with
+    | .ok (it', .ext e) => if (e.id : Int) = id then .ok (it', .ext e) else find it' id
+    | .ok (it', s) => .ok (it', s)
+    | .err e => .err e
+    | .oob => .oob
+    | .abort => .abort := by
+  rw [find]; split <;> simp [*]
+
+/-- `find` in terms of plain iteration: with `l` the extensions `next` would return from this state on and `s` the
+    final return value, `find` returns the FIRST entry of `l` with the requested ID, leaving the iterator where
+    plain iteration would continue (`post`); with no such entry it returns what iteration ends with (`0` or
+    `OPUS_INVALID_PACKET`).  `P` is any property of states preserved by `next` (e.g. reachability). -/
+theorem find_iterAll (P : Iter → Prop) (hP : ∀ it it' s, P it → next it = .ok (it', s) → P it') (id : Int) (it : Iter) :
+    ∀ l s, iterAll it = .ok (l, s) → P it →
+    (∀ pre e post, l = pre ++ e :: post → (∀ x ∈ pre, (x.id : Int) ≠ id) → (e.id : Int) = id →
+      ∃ it', find it id = .ok (it', .ext e) ∧ P it' ∧ iterAll it' = .ok (post, s)) ∧
+    ((∀ x ∈ l, (x.id : Int) ≠ id) → ∃ it', find it id = .ok (it', s) ∧ P it') := by
+  fun_induction iterAll it with
+  | case1 it it' e h l s hrec ih =>
+    intro l0 s0 heq hp
+    simp only [Res.ok.injEq, Prod.mk.injEq] at heq
+    obtain ⟨rfl, rfl⟩ := heq
+    have hp' := hP _ _ _ hp h
+    obtain ⟨ih1, ih2⟩ := ih _ _ hrec hp'
+    constructor
+    · intro pre e0 post hl hpre he0
+      rw [find_eq, h]
+      simp only
+      cases pre with
+      | nil =>
+        simp only [List.nil_append, List.cons.injEq] at hl
+        obtain ⟨rfl, rfl⟩ := hl
+        simp only [he0, if_true]
+        exact ⟨it', rfl, hp', hrec⟩
+      | cons x pre' =>
+        simp only [List.cons_append, List.cons.injEq] at hl
+        obtain ⟨rfl, rfl⟩ := hl
+        have hx := hpre e (List.mem_cons_self ..)
+        simp only [hx, if_false]
+        exact ih1 pre' e0 post rfl (fun y hy => hpre y (List.mem_cons_of_mem _ hy)) he0
+    · intro hall
+      rw [find_eq, h]
+      simp only
+      have hx := hall e (List.mem_cons_self ..)
+      simp only [hx, if_false]
+      exact ih2 (fun y hy => hall y (List.mem_cons_of_mem _ hy))
+  | case2 => intro _ _ h; simp at h
+  | case3 => intro _ _ h; simp at h
+  | case4 => intro _ _ h; simp at h
+  | case5 it it' s h hne =>
+    intro l0 s0 heq hp
+    simp only [Res.ok.injEq, Prod.mk.injEq] at heq
+    obtain ⟨rfl, rfl⟩ := heq
+    constructor
+    · intro pre e post hl; cases pre <;> simp at hl
+    · intro _
+      refine ⟨it', ?_, hP _ _ _ hp h⟩
+      rw [find_eq, h]
+      cases s with
+      | ext e => exact absurd rfl (hne e)
+      | done => rfl
+      | invalid => rfl
+  | case6 => intro _ _ h; simp at h
+  | case7 => intro _ _ h; simp at h
+  | case8 => intro _ _ h; simp at h
+
 end Opus.ExtProofs
